@@ -426,6 +426,7 @@ func vTwinsOps() []vOp {
 		{q: `{ items { ... on Ebook { title pages } ... on EBook { id size } } }`},
 		// lists the gateway sorts by name, with names that differ by case only
 		{q: `{ __schema { types { name kind } } }`},
+		{q: `{ __schema { types { kind description } directives { n: name } } }`},
 	}
 }
 
